@@ -1,6 +1,6 @@
 #!/bin/bash
 # usage: tools/seedtest.sh <patch.diff> <Cnn> [more Cnn...]  -- apply a seeded change to /repo, run checks, undo.
-patch="$1"; shift
+patch="$(realpath "$1")"; shift
 cd /repo || exit 2
 if [ -n "$(git status --porcelain)" ]; then echo "/repo not clean"; exit 2; fi
 git apply "$patch" || { echo "patch does not apply"; exit 2; }
